@@ -189,7 +189,14 @@ func (s *LegacyServer) VerifyClient(ctx context.Context, r *Request[ClientCreden
 		if !ok {
 			return nil, oidc.ErrUnsupportedGrantType().WithDescription("client_credentials grant not supported")
 		}
-		return storage.ClientCredentials(ctx, r.Data.ClientID, r.Data.ClientSecret)
+		client, err := storage.ClientCredentials(ctx, r.Data.ClientID, r.Data.ClientSecret)
+		if err != nil {
+			return nil, err
+		}
+		if client.AuthMethod() == oidc.AuthMethodPost && !s.provider.AuthMethodPostSupported() {
+			return nil, oidc.ErrInvalidClient().WithDescription("auth_method post not supported")
+		}
+		return client, nil
 	}
 
 	if r.Data.ClientAssertionType == oidc.ClientAssertionTypeJWTAssertion {
